@@ -666,6 +666,99 @@ class SimFS:
         patcher.set(builtins, "open", dispatch)
         patcher.set(_io, "open", dispatch)
 
+    def install_fd(self, patcher):
+        """Low-level descriptors for simulated files: os.open (honouring O_TRUNC / O_CREAT / O_EXCL / O_APPEND),
+        os.fdopen, os.write, os.read, os.close, os.fsync, os.ftruncate, os.lseek.  Descriptors >= 100000 are simulated."""
+        import os as _os
+        fs = self
+        fs.fds = {}
+        real = {n: getattr(_os, n) for n in ("open", "fdopen", "write", "read", "close", "fsync", "ftruncate", "lseek", "fstat")}
+        counter = [100000]
+
+        def sim_open(path, flags, mode=0o777, *a, **kw):
+            try:
+                p = fs._norm(_os.fspath(path))
+            except TypeError:
+                return real["open"](path, flags, mode, *a, **kw)
+            if isinstance(p, bytes):
+                p = p.decode("utf-8", "surrogateescape")
+            if not (p in fs.files or p.split("/", 1)[0] in getattr(fs, "roots", ()) or fs._simulated(p)):
+                return real["open"](path, flags, mode, *a, **kw)
+            acc = flags & (_os.O_WRONLY | _os.O_RDWR)
+            exists = p in fs.files
+            if flags & _os.O_CREAT and flags & _os.O_EXCL and exists:
+                raise FileExistsError(errno.EEXIST, os.strerror(errno.EEXIST), p)
+            if not exists and not flags & _os.O_CREAT:
+                raise oserror("ENOENT", p)
+            if acc:
+                m = "r+b" if exists else "w+b"
+                if flags & _os.O_TRUNC:
+                    m = "w+b"
+                f = fs.open(p, m, 0)
+                if not exists and m == "r+b":
+                    pass
+                if flags & _os.O_APPEND:
+                    f.seek(0, 2)
+                if acc == _os.O_WRONLY:
+                    f.can_read = False
+                if not exists:
+                    f.dirty = True
+            else:
+                f = fs.open(p, "rb", 0)
+            counter[0] += 1
+            fs.fds[counter[0]] = f
+            return counter[0]
+
+        def sim_fdopen(fd, mode="r", *a, **kw):
+            f = fs.fds.get(fd)
+            if f is None:
+                return real["fdopen"](fd, mode, *a, **kw)
+            f.binary = "b" in mode
+            buffering = a[0] if a else kw.get("buffering", -1)
+            f.raw = buffering == 0
+            if "a" in mode:
+                f.seek(0, 2)
+            fs.fds.pop(fd, None)
+            return f
+
+        def sim_write(fd, data):
+            f = fs.fds.get(fd)
+            if f is None:
+                return real["write"](fd, data)
+            was = f.raw
+            f.raw = True
+            try:
+                return f.write(bytes(data))
+            finally:
+                f.raw = was
+
+        def sim_read(fd, n):
+            f = fs.fds.get(fd)
+            return real["read"](fd, n) if f is None else f.read(n)
+
+        def sim_close(fd):
+            f = fs.fds.pop(fd, None)
+            return real["close"](fd) if f is None else f.close()
+
+        def sim_fsync(fd):
+            f = fs.fds.get(fd)
+            if f is None:
+                return real["fsync"](fd)
+            fs.files[f.path] = bytes(f.content)
+            fs.events.append(("fsync", f.path))
+
+        def sim_ftruncate(fd, n):
+            f = fs.fds.get(fd)
+            return real["ftruncate"](fd, n) if f is None else f.truncate(n)
+
+        def sim_lseek(fd, off, whence):
+            f = fs.fds.get(fd)
+            return real["lseek"](fd, off, whence) if f is None else f.seek(off, whence)
+
+        for n, fn in (("open", sim_open), ("fdopen", sim_fdopen), ("write", sim_write), ("read", sim_read), ("close", sim_close),
+                      ("fsync", sim_fsync), ("ftruncate", sim_ftruncate), ("lseek", sim_lseek)):
+            patcher.set(_os, n, fn)
+
     def install_rename(self, patcher):
         """os.rename / os.replace / os.remove / os.unlink for simulated files (shutil.move builds on them); a real
         temporary file renamed onto a simulated name is taken in."""
